@@ -200,7 +200,7 @@ func (r *Run) Finish() int {
 		"property_id": r.Property, "tier": r.Tier, "seed": Seed(), "level": r.Level,
 		"coverage": cov, "assumptions": r.Assumptions, "wall_s": wall, "violations": newViol,
 	}
-	if ev["assumptions"] == nil {
+	if r.Assumptions == nil {
 		ev["assumptions"] = []string{}
 	}
 	b, _ := json.MarshalIndent(ev, "", " ")
